@@ -30,7 +30,7 @@ ASSUMPTIONS = [
     'failure belong to the same request and must stay on the same node.',
     'A transport exception counts as a failed request.',
 ]
-EXPECTED_PROBES = ['error_then_request', 'exception_then_request', 'transient_exhausted_then_request', 'wrapped_around']
+EXPECTED_PROBES = ['two_clients_one_uri_list', 'error_then_request', 'exception_then_request', 'transient_exhausted_then_request', 'wrapped_around']
 
 OUTCOMES = ['ok', 's404', 's401', 's400', 'perm500', 'trans_ok', 'trans6', 'exc', 'exc_timeout', 'exc_chunked', 'exc_connect_timeout']
 VIAS = ['get', 'post', 'put', 'delete', 'request', 'shell.header', 'shell.counter', 'shell.inject',
@@ -45,6 +45,7 @@ def gen(seed, tier):
         enabled.append('ok')
     nreq = rng.randint(1, 24 if tier == 'thorough' else 16)
     err_rate = rng.choice([0.1, 0.3, 0.6, 0.9])
+    two_clients = rng.random() < 0.25
     steps = []
     for _ in range(nreq):
         errs = [o for o in enabled if o != 'ok']
@@ -53,6 +54,10 @@ def gen(seed, tier):
         else:
             o = 'ok' if 'ok' in enabled else rng.choice(enabled)
         st = {'via': rng.choice(VIAS), 'outcome': o}
+        if rng.random() < 0.2:
+            st['shell2'] = True  # issued through a second ShellQuery built over the same RpcMultiNode object
+        if two_clients and rng.random() < 0.4:
+            st['client'] = 1  # a second RpcMultiNode built from the very same list object (e.g. two `using('<net>.pool')` clients)
         if o == 'trans_ok':
             st['r'] = rng.randint(1, 5)
         steps.append(st)
@@ -111,13 +116,25 @@ def execute(scn, want_log=False):
         probes[p] = probes.get(p, 0) + 1
 
     with core.Seams(sim, tr):
-        node = RpcMultiNode(list(uris))
-        shell = ShellQuery(node)
-        for i, st in enumerate(scn['steps']):
+        shared_list = list(uris)  # one list object handed to every client, as the module-level `nodes[net]` lists are
+        clients = {0: RpcMultiNode(shared_list)}
+        shells = {}
+        counts = {0: 0, 1: 0}
+        for gi, st in enumerate(scn['steps']):
+            cid = st.get('client', 0)
+            if cid not in clients:
+                clients[cid] = RpcMultiNode(shared_list)  # created lazily: the first client may already have made requests
+            node = clients[cid]
+            key = (cid, bool(st.get('shell2')))
+            if key not in shells:
+                shells[key] = ShellQuery(node)
+            shell = shells[key]
+            i = counts[cid]
+            counts[cid] += 1
             cur['outcome'] = st['outcome']
             cur['left'] = st.get('r', 0)
             first = len(sim.log)
-            sim.ev('client_request', i=i, via=st['via'], outcome=st['outcome'])
+            sim.ev('client_request', i=i, client=cid, via=st['via'], outcome=st['outcome'])
             raised = None
             try:
                 v = st['via']
@@ -170,6 +187,8 @@ def execute(scn, want_log=False):
                 bump('transient_exhausted_then_request')
             if i >= scn['n'] and scn['n'] > 1:
                 bump('wrapped_around')
+            if cid == 1:
+                bump('two_clients_one_uri_list')
             hosts = [r['host'] for r in reqs]
             if not hosts:
                 violations.append({'kind': 'no-attempt', 'sig': 'C28/no-attempt', 'detail': {'i': i}})
@@ -181,7 +200,7 @@ def execute(scn, want_log=False):
                     {
                         'kind': 'wrong-node',
                         'sig': f'C28/wrong-node:{"retry-moved" if within else cause}',
-                        'detail': {'i': i, 'n': scn['n'], 'expected': want, 'hosts': hosts, 'previous_outcome': prev},
+                        'detail': {'i': i, 'client': cid, 'n': scn['n'], 'expected': want, 'hosts': hosts, 'previous_outcome': prev},
                     }
                 )
                 break
@@ -213,6 +232,11 @@ def simplify(scn):
             c = json.loads(json.dumps(scn))
             c['steps'][i]['via'] = 'get'
             yield c
+        for fld in ('shell2', 'client'):
+            if st.get(fld):
+                c = json.loads(json.dumps(scn))
+                del c['steps'][i][fld]
+                yield c
         if st['outcome'] not in ('ok', 's404', 'exc'):
             c = json.loads(json.dumps(scn))
             c['steps'][i] = {'via': st['via'], 'outcome': 'exc'} if st['outcome'].startswith('exc_') else c['steps'][i]
